@@ -26,8 +26,10 @@ def fi_nontrivial(evs):
 FI_JOB = job("fi",
     harness="fi_rec", inc=["common", "fi"], spec="TraceFreqItems", owners=["C12"], serde=True,
     files={Q: 8, T: 40},
+    # thorough: every fifth file starts with one long segment on a lg_max 11 map (1537 active entries at a purge: sampled median)
     args=lambda tier, seed, k, profile: ["--seed", seed, "--segments", 6 if tier == Q else 8, "--events", 350 + 50 * (k % 4),
                                          "--maxlg", 8 if tier == Q else (11 if k % 5 == 0 else 9),
+                                         "--big", 1 if (tier == T and k % 5 == 0) else 0,
                                          "--serde", 20 if profile == "serde" else 3],
     nontrivial=fi_nontrivial,
     rec_timeout=240,     # a recording takes seconds; a driver that hangs inside the library is reported as a crash
